@@ -435,4 +435,52 @@ theorem orderOk_sorted {s : RefStore} {now : Nat} (h : RsInv s) (hc : ClsOk s no
     | some l => exact ha c _ (kvGet_some hg)
   exact asc_ext hlhs hrhs hmem
 
+/-! ### x/streamer epoch pointers -/
+
+/-- entries of a loop of `Set`s come from the start section or from the items -/
+theorem mem_foldl_kvSet_sub {κ β γ : Type} {lt : κ → κ → Bool} (so : StrictOrder lt) (kf : γ → κ) (vf : γ → β) :
+    ∀ (items : List γ) (acc : KV κ β), Sorted lt acc →
+      ∀ e, e ∈ items.foldl (fun s x => kvSet lt (kf x) (vf x) s) acc → e ∈ acc ∨ ∃ x ∈ items, e = (kf x, vf x)
+  | [], _, _, e, h => Or.inl h
+  | x :: rest, acc, ha, e, h => by
+    rcases mem_foldl_kvSet_sub so kf vf rest _ (sorted_kvSet so _ _ ha) e h with h1 | ⟨y, hy, rfl⟩
+    · rcases (mem_kvSet so _ _ ha e).1 h1 with rfl | ⟨h2, _⟩
+      · exact Or.inr ⟨x, List.mem_cons_self, rfl⟩
+      · exact Or.inl h2
+    · exact Or.inr ⟨y, List.mem_cons_of_mem _ hy, rfl⟩
+
+/-- the pointer section survives when every epoch of x/epochs already has its pointer (the fresh
+    pointers written first are then all overwritten) -/
+theorem strInitPointers_export {ptrs : KV Bytes Pointer} (hs : Sorted lexLt ptrs) (hk : Keyed (fun p : Pointer => p.epochId) ptrs)
+    (epochs : List (Bytes × Nat)) (hcov : ∀ ep ∈ epochs, ∃ e ∈ ptrs, e.1 = ep.1) :
+    strInitPointers epochs (exportVals ptrs) = ptrs := by
+  unfold strInitPointers
+  have hacc : Sorted lexLt (epochs.foldl (fun m e => kvSet lexLt (newEpochPointer e).epochId (newEpochPointer e) m) []) :=
+    sorted_foldl_kvSet soBytes (fun e => (newEpochPointer e).epochId) newEpochPointer epochs sorted_nil
+  have hkeys : (exportVals ptrs).map (fun p : Pointer => p.epochId) = ptrs.map (·.1) := by
+    unfold exportVals; rw [List.map_map]
+    apply List.map_congr_left
+    intro e he; exact (hk e he).symm
+  have hn : ((exportVals ptrs).map (fun p : Pointer => p.epochId)).Nodup := by rw [hkeys]; exact hs.keys_nodup soBytes
+  have sp := foldl_kvSet_spec soBytes (fun p : Pointer => p.epochId) (fun p => p) (exportVals ptrs) _ hacc hn
+  apply sorted_ext soBytes sp.1 hs
+  intro e
+  rw [sp.2 e]
+  constructor
+  · rintro (⟨h1, h2⟩ | ⟨p, hp, rfl⟩)
+    · exfalso
+      rcases mem_foldl_kvSet_sub soBytes _ _ epochs [] sorted_nil e h1 with h0 | ⟨ep, hep, rfl⟩
+      · cases h0
+      · obtain ⟨e', he', hk'⟩ := hcov ep hep
+        apply h2
+        rw [hkeys]
+        exact List.mem_map.2 ⟨e', he', hk'⟩
+    · obtain ⟨x, hx, rfl⟩ := List.mem_map.1 hp
+      have hkx : x.1 = x.2.epochId := hk x hx
+      rw [← hkx]; exact hx
+  · intro he
+    refine Or.inr ⟨e.2, List.mem_map.2 ⟨e, he, rfl⟩, ?_⟩
+    have hke : e.1 = e.2.epochId := hk e he
+    rw [← hke]
+
 end DymVerif.Genesis
